@@ -164,9 +164,48 @@ impl IVP for AstProblem {
                     }
                 }
             }
-        } else {
-            Matrix::identity(m.nrows());
         }
+    }
+}
+
+/// Same problem, but mass() is NOT overridden: the trait's default mass matrix is used.
+pub struct DefaultMass<'a>(pub &'a AstProblem);
+impl<'a> IVP for DefaultMass<'a> {
+    fn ode(&self, x: f64, y: &[f64], dydx: &mut [f64]) {
+        self.0.ode(x, y, dydx)
+    }
+    fn events(&self, x: f64, y: &[f64], out: &mut [f64]) {
+        self.0.events(x, y, out)
+    }
+    fn n_events(&self) -> usize {
+        self.0.n_events()
+    }
+    fn event_config(&self, i: usize) -> EventConfig {
+        self.0.event_config(i)
+    }
+    fn jac(&self, x: f64, y: &[f64], j: &mut Matrix) {
+        self.0.jac(x, y, j)
+    }
+}
+
+/// Neither jac() nor mass() overridden: the trait's own finite-difference Jacobian.
+pub struct AllDefaults<'a>(pub &'a AstProblem);
+impl<'a> IVP for AllDefaults<'a> {
+    fn ode(&self, x: f64, y: &[f64], dydx: &mut [f64]) {
+        for (i, e) in self.0.f.iter().enumerate() {
+            dydx[i] = e.eval(x, y);
+        }
+    }
+    fn events(&self, x: f64, y: &[f64], out: &mut [f64]) {
+        for (i, (_, _, e)) in self.0.events.iter().enumerate() {
+            out[i] = e.eval(x, y);
+        }
+    }
+    fn n_events(&self) -> usize {
+        self.0.n_events()
+    }
+    fn event_config(&self, i: usize) -> EventConfig {
+        self.0.event_config(i)
     }
 }
 
@@ -317,7 +356,44 @@ fn run_solve(kv: &HashMap<String, String>) -> String {
         .mass_storage(parse_storage(kv.get("massstorage").map(|s| s.as_str()).unwrap_or("identity")))
         .build();
     let query = unlist(kv.get("query").map(|s| s.as_str()).unwrap_or("0:"));
-    let res = catch_unwind(AssertUnwindSafe(|| solve_ivp(&prob, x0, xend, &y0, opts)));
+    let mk_opts = || {
+        Options::builder()
+            .method(method)
+            .rtol(parse_tol(&kv["rtol"]))
+            .atol(parse_tol(&kv["atol"]))
+            .maybe_max_steps(if kv["maxsteps"] == "none" { None } else { Some(kv["maxsteps"].parse::<usize>().unwrap()) })
+            .maybe_t_eval(if kv["teval"] == "none" { None } else { Some(unlist(&kv["teval"])) })
+            .maybe_first_step(opt_f(&kv["firststep"]))
+            .maybe_max_step(opt_f(&kv["maxstep"]))
+            .maybe_min_step(opt_f(kv.get("minstep").map(|s| s.as_str()).unwrap_or("none")))
+            .dense_output(kv["dense"] == "1")
+            .jac_storage(parse_storage(kv.get("jacstorage").map(|s| s.as_str()).unwrap_or("full")))
+            .mass_storage(parse_storage(kv.get("massstorage").map(|s| s.as_str()).unwrap_or("identity")))
+            .build()
+    };
+    let res = catch_unwind(AssertUnwindSafe(|| {
+        if prob.mass.is_some() {
+            solve_ivp(&prob, x0, xend, &y0, opts)
+        } else {
+            solve_ivp(&DefaultMass(&prob), x0, xend, &y0, opts)
+        }
+    }));
+    // the trait's own finite-difference Jacobian must give the same run as the instrumented copy
+    let mut fdsame: Option<bool> = None;
+    if prob.jac.is_none() && prob.mass.is_none() && matches!(method, Method::RADAU | Method::BDF) {
+        let r2 = catch_unwind(AssertUnwindSafe(|| solve_ivp(&AllDefaults(&prob), x0, xend, &y0, mk_opts())));
+        fdsame = Some(match (&res, &r2) {
+            (Ok(Ok(a)), Ok(Ok(b))) => {
+                a.t.iter().map(|v| v.to_bits()).eq(b.t.iter().map(|v| v.to_bits()))
+                    && a.y.iter().flatten().map(|v| bits(*v)).eq(b.y.iter().flatten().map(|v| bits(*v)))
+                    && a.nfev == b.nfev && a.njev == b.njev && a.nlu == b.nlu && a.nstep == b.nstep
+                    && a.status == b.status
+            }
+            (Ok(Err(_)), Ok(Err(_))) => true,
+            (Err(_), Err(_)) => true,
+            _ => false,
+        });
+    }
     match res {
         Err(_) => out.push_str("panic\n"),
         Ok(Err(_e)) => out.push_str("error\n"),
@@ -344,6 +420,9 @@ fn run_solve(kv: &HashMap<String, String>) -> String {
             log_summary("odelog", &prob.odelog.borrow(), full, &mut out);
             log_summary("evlog", &prob.evlog.borrow(), full, &mut out);
             log_summary("jaclog", &prob.jaclog.borrow(), full, &mut out);
+            if let Some(s) = fdsame {
+                out.push_str(&format!("fd_default_same {}\n", s));
+            }
             match sol.sol_span() {
                 Some((a, b)) => out.push_str(&format!("span {} {}\n", hx(a), hx(b))),
                 None => out.push_str("span none\n"),
